@@ -162,6 +162,8 @@ type World struct {
 	Ledger *Ledger
 
 	LatencyMenu []time.Duration
+	// KMSRefusesRevoked: the KMS persistently refuses to unwrap a system key whose row is flagged revoked.
+	KMSRefusesRevoked bool
 
 	Procs     []*Proc
 	Ops       []*OpRec
